@@ -4,7 +4,7 @@
 tier="${1:-quick}"; logs="${2:-/verif/.build/runall-$tier}"
 cd "$(dirname "$0")/.."; mkdir -p "$logs"
 fail=0
-for p in $(python3 -c "import json;print(' '.join(x['property'] for x in json.load(open('MANIFEST.json'))['checks']))" 2>/dev/null || ls tools/props.d | sed 's/.json//'); do
+for p in $(python3 -c "import json;print(' '.join(x['property_id'] for x in json.load(open('MANIFEST.json'))['checks']))" 2>/dev/null || ls tools/props.d | sed 's/.json//'); do
   s=$(date +%s); ./check "$p" --tier "$tier" > "$logs/$p.log" 2>&1; rc=$?; e=$(date +%s)
   echo "$p rc=$rc wall=$((e-s))s $(grep -E '^(OK|VIOLATION|INCONCLUSIVE|KNOWN-FINDING)' "$logs/$p.log" | tail -1 | cut -c1-220)"
   [ $rc -ne 0 ] && fail=1
